@@ -235,3 +235,8 @@ impl<'de, 'a> serde::Deserializer<'de> for ProbeDeserializer<'a> {
         unit_struct newtype_struct seq tuple tuple_struct map struct enum identifier ignored_any
     }
 }
+
+/// First access of this module's thread-local state that has a destructor (see sched::ExitProbe).
+pub fn touch_tls() {
+    let _ = DECODE_SEEN.try_with(|_| ());
+}
